@@ -91,12 +91,28 @@ def mat(x):
     return x, x
 
 
+def adata(arr):
+    """Elements of an operand array as its user knows it: `shape` many (the shape is what the array was built with).  An array
+    whose store disagrees with its shape is reported - the oracle must not follow the store."""
+    d = list(arr.data)
+    size = 1
+    for t in arr.shape:
+        size *= t
+    if len(d) != size:
+        st = _state
+        if st is not None:
+            _viol(st, "operand:store-disagrees-with-shape", f"{type(arr).__name__} of shape {tuple(arr.shape)} holds {len(d)} elements",
+                  {"class": type(arr).__name__, "shape": list(arr.shape), "held": len(d)})
+        d = d[:size]
+    return d
+
+
 def flat(x, out):
     """Independent flattening: lists, tuples, (materialised) generators, arrays, frames."""
     if isinstance(x, (Expr, bool, int)) or x is None:
         out.append(x)
     elif isinstance(x, (A.Array1D, A.Array2D)):
-        out.extend(x.data)
+        out.extend(adata(x))
     elif hasattr(x, "__iter__"):
         for y in x:
             flat(y, out)
@@ -127,15 +143,22 @@ def _elementwise(op, shape, operands):
     cols = []
     for o in operands:
         if isinstance(o, (A.Array1D, A.Array2D)):
-            cols.append(list(o.data))
+            cols.append(adata(o))
         else:
             cols.append([o] * n)
+    if any(len(c) != n for c in cols):
+        _viol(st, f"elementwise:length:{op.name}", f"result holds {n} elements, operands hold {[len(c) for c in cols]}", w)
+        return res
     vars_ = collect_vars([x for c in cols for x in c], {})
     sem = SEM[op]
     try:
         for env in assignments(vars_, ctx.rng, k=6, cap=64):
             for i in range(n):
-                got = ev(res.data[i], env)
+                try:
+                    got = ev(res.data[i], env)
+                except KeyError as ke:
+                    _viol(st, f"elementwise:foreign-variable:{op.name}", f"element {i} mentions variable id {ke} that no operand contains", w)
+                    return res
                 want = sem(*[ev(c[i], env) for c in cols])
                 if got != want or type(got) is not type(want):
                     w.update({"index": i, "assignment": {str(k): v for k, v in env.items()}, "got": got, "want": want})
@@ -163,7 +186,11 @@ def _agg_check(st, name, args, res, sem, want_kind):
         for env in assignments(vars_, ctx.rng, k=8, cap=128):
             vals = [ev(x, env) for x in items]
             want = sem(vals)
-            got = ev(res, env)
+            try:
+                got = ev(res, env)
+            except KeyError as ke:
+                _viol(st, f"helper:foreign-variable:{name}", f"{name} mentions variable id {ke} that none of its {len(items)} items contains", w)
+                return
             if got != want or type(got) is not type(want):
                 w.update({"assignment": {str(k): v for k, v in env.items()}, "got": got, "want": want, "values": vals[:16]})
                 _viol(st, f"helper:denotation:{name}", f"{name} denotes {got}, mathematical meaning {want}", w)
@@ -220,7 +247,7 @@ def _mk_method(cls, mname, hname, sem, want_kind):
         res = orig(self)
         st = _state
         if st is not None:
-            _agg_check(st, f"{hname}.method", [list(self.data)], res, sem, want_kind)
+            _agg_check(st, f"{hname}.method", [adata(self)], res, sem, want_kind)
         return res
 
     setattr(cls, mname, method)
@@ -239,10 +266,11 @@ def _conv2d(self, height, width, op):
     if not isinstance(res, A.BoolArray2D) or tuple(res.shape) != (rh, rw):
         _viol(st, "conv2d:shape", f"result shape {getattr(res, 'shape', None)}, expected {(rh, rw)}", w)
         return res
-    vars_ = collect_vars(self.data, {})
+    sdata = adata(self)
+    vars_ = collect_vars(sdata, {})
     try:
         for env in assignments(vars_, ctx.rng, k=8, cap=128):
-            vals = [ev(x, env) for x in self.data]
+            vals = [ev(x, env) for x in sdata]
             for y in range(rh):
                 for x in range(rw):
                     win = [vals[(y + dy) * W + (x + dx)] for dy in range(height) for dx in range(width)]
